@@ -37,6 +37,42 @@ func (re *Regexp) Split(input string, count int) ([]string, error) {
 
 	m, err := re.FindStringMatch(input)
 
+	if re.RightToLeft() {
+		// matches arrive from the end of the input towards its start; collect the
+		// pieces per match and emit them in text order
+		type block struct {
+			groups []string
+			after  string
+		}
+		var blocks []block
+		for ; m != nil && count > 0; m, err = re.FindNextMatch(m) {
+			if txt == nil {
+				txt = m.text.runes
+				priorIndex = len(txt)
+			}
+			b := block{after: string(txt[m.RuneIndex+m.RuneLength : priorIndex])}
+			gs := m.Groups()
+			for i := 1; i < len(gs); i++ {
+				b.groups = append(b.groups, gs[i].String())
+			}
+			blocks = append(blocks, b)
+			priorIndex = m.RuneIndex
+			count--
+		}
+		if err != nil {
+			return nil, err
+		}
+		if txt == nil {
+			return []string{input}, nil
+		}
+		retVal = append(retVal, string(txt[:priorIndex]))
+		for i := len(blocks) - 1; i >= 0; i-- {
+			retVal = append(retVal, blocks[i].groups...)
+			retVal = append(retVal, blocks[i].after)
+		}
+		return retVal, nil
+	}
+
 	for ; m != nil && count > 0; m, err = re.FindNextMatch(m) {
 		txt = m.text.runes
 		// if we have an m, we don't have an err
